@@ -25,6 +25,7 @@ func runC07(c *Ctx, r *Run) {
 	r.Rule("OB-Q2", "first message wins: duplicate() filters, store() never overwrites, stale rounds are rejected")
 	r.Rule("OB-Q4", "every message is queued under its own RoundNumber and From (both handlers)")
 	r.Rule("OB-Q3", "broadcast before p2p per sender: p2p verification waits for the sender's broadcast; the broadcast handler then drains the queued p2p message")
+	r.Rule("OB-Q5", "filter first: every effect of Accept is dominated by the passing edge of canAccept")
 	r.Rule("DET-1", "no hash/transcript write inside an iteration over a Go map")
 	r.Rule("RG-1", "content RoundNumber() equals the consuming round's Number()")
 	r.Rule("RG-2", "FinalRoundNumber admits every reachable round")
@@ -189,6 +190,49 @@ func runC07(c *Ctx, r *Run) {
 		r.Check("OB-Q3", "pkg/protocol.(*MultiHandler).verifyBroadcastMessage|drains-queued-p2p", c.Pos(vb.Pos()), drains, "after storing a broadcast the sender's queued p2p message is processed", "verifyBroadcastMessage does not hand the queued p2p message of the same sender to verifyMessage: a p2p message that overtook its broadcast is never processed")
 	}
 
+	// ---- OB-Q5 filter first: in Accept nothing that changes the session (abort, queue write, round processing) runs
+	// before the message passed canAccept (right session, protocol, sender, recipient, round window).
+	for _, hn := range []string{"MultiHandler", "TwoPartyHandler"} {
+		a := c.LookupMethod("pkg/protocol", hn, "Accept")
+		if a == nil {
+			r.Unresolved("OB-Q5", "pkg/protocol."+hn+".Accept")
+			continue
+		}
+		r.Analysed(c.FuncName(a))
+		recvT := a.Signature.Recv().Type()
+		allInstrs(a, func(in ssa.Instruction) {
+			what := ""
+			switch x := in.(type) {
+			case *ssa.Call:
+				cal := x.Call.StaticCallee()
+				if cal == nil || cal.Signature.Recv() == nil || !types.Identical(cal.Signature.Recv().Type(), recvT) {
+					return
+				}
+				cn := canonFnName(cal)
+				if cn == "canAccept" || cn == "duplicate" {
+					return
+				}
+				what = "call " + cn
+			case *ssa.MapUpdate:
+				if !containsPrefix(paramFields(a, x.Map), "recv.") {
+					return
+				}
+				what = "queue write " + strings.Join(paramFields(a, x.Map), "+")
+			case *ssa.Store:
+				if _, isAlloc := x.Addr.(*ssa.Alloc); isAlloc || !containsPrefix(paramFields(a, x.Addr), "recv.") {
+					return
+				}
+				what = "state write " + strings.Join(paramFields(a, x.Addr), "+")
+			default:
+				return
+			}
+			ok, _ := callResultEdgeDominates(a, "canAccept", true, in.Block())
+			r.Check("OB-Q5", c.FuncName(a)+"|"+what+"|after-filter", c.Pos(in.Pos()), ok,
+				"runs only for a message that passed canAccept",
+				what+" is reachable in Accept for a message that did not pass canAccept (another session, another protocol, an unknown sender, a round outside the window): a foreign message changes this session's outcome")
+		})
+	}
+
 	// ---- DET-1
 	nLoops := 0
 	for _, p := range c.LibPkgs() {
@@ -307,6 +351,7 @@ func runC07(c *Ctx, r *Run) {
 	r.Require("OB-Q1", 4)
 	r.Require("OB-Q2", 5)
 	r.Require("OB-Q3", 2)
+	r.Require("OB-Q5", 8)
 	r.Require("RG-1", 30)
 	r.Require("RG-2", 9)
 }
@@ -438,4 +483,13 @@ func checkFirstCopyWins(c *Ctx, r *Run, rule string) {
 		}
 	}
 	r.Check(rule, "pkg/protocol.(*MultiHandler).store|never-overwrites", c.Pos(store.Pos()), okNo, "store writes a slot only while it is empty (the first message wins)", "store overwrites an occupied slot: a duplicate or a late equivocation replaces the message already processed")
+}
+
+func containsPrefix(fields []string, pre string) bool {
+	for _, f := range fields {
+		if strings.HasPrefix(f, pre) {
+			return true
+		}
+	}
+	return false
 }
